@@ -206,6 +206,10 @@ def rule_count(ctx):
 
 
 RULES = [("tables", rule_tables), ("sides", rule_sides), ("only", rule_only), ("count", rule_count)]
+# the evaluation counts the pieces of the board as it is represented: the representation staying the real position under
+# make/unmake (placement, the castling bookkeeping that decides whether a rook is put back, undo = reverse of do) is decided here too
+RULES += engine.premise_rules("c03", ["revocation-table", "placement"])
+RULES += engine.premise_rules("c02", ["writeset", "inverse-seq", "probe-pair"])
 
 
 def run(tier):
